@@ -642,8 +642,8 @@ pub fn run(e: &Engine) {
     e.campaign(
         "lockstep",
         "1-9 steps: a transaction of 1-9 generated StorageTxn calls (whole surface, arbitrary Unicode contents) run in lock-step on InMemoryStorage and SqliteStorage and committed or abandoned, close/reopen, or a read-only probe; every return value compared, full dump compared after every transaction and reopen; non-trivial = >=1 commit, >=1 abandon, >=1 reopen and >=3 of {tasks, operations, base version, working set, sync_complete} touched",
-        e.tier.pick(6000, 300_000),
-        || strategy_sized(e.tier.pick(10, 40)),
+        e.tier.pick(6000, 100_000),
+        || strategy_sized(e.tier.pick(10, 30)),
         |c| serde_json::to_value(c).unwrap(),
         check_case,
     );
